@@ -310,6 +310,14 @@ def RuntimeTieClauses : List String :=
   ["operations have a root object type", "no __schema/__type selections",
    "MergeSafe (OverlappingFieldsCanBeMerged, declarative; `mergeSafeB` evaluated by the driver on every accepted document) — separate hypothesis of validated_no_internal_error"]
 
+/-- schema fact (schema validation, C13): the root operation types the schema names are object types -/
+def RootsAreObjects (s : SchemaD) : Prop := ∀ k r, Exec.rootType s k = some r → Validate.isObject s r = true
+
+/-- the ONE clause left of `RuntimeTie` once "the operation has a root type" is no longer needed (`ValidDocR`): the
+    executor model does not execute `__schema` / `__type` (introspection is C15's model) -/
+def NoIntrospection (s : SchemaD) (d : Validate.Doc) : Prop :=
+  ∀ p ∈ typedNodes s d, ∀ name args dirs hs, p.1 = Node.field name args dirs hs → name ≠ "__schema" ∧ name ≠ "__type"
+
 private theorem frags_names (s : SchemaD) (env : Exec.ArgEnv) (d : Validate.Doc) : (eDoc s env d).frags.map (·.name) = fragNames d := by
   unfold eDoc fragNames
   simp only
@@ -341,6 +349,27 @@ private theorem rootType_compat (s : SchemaD) (k r : String) (h : Validate.rootT
     | none => simp [hq] at h
     | some q => simp [hq] at h; obtain ⟨ho, rfl⟩ := h; simp [hq, ho]
   · simp at h
+
+private theorem rootType_compat_rev (s : SchemaD) (k r : String) (h : Exec.rootType s k = some r)
+    (ho : Validate.isObject s r = true) : Validate.rootType s k = some r := by
+  unfold Exec.rootType at h
+  unfold Validate.rootType
+  split at h
+  · rename_i hk
+    have hk' : k = "query" := by simpa using hk
+    subst hk'
+    simp [h, ho]
+  · split at h
+    · rename_i hk
+      have hk' : k = "mutation" := by simpa using hk
+      subst hk'
+      simp [h, ho]
+    · split at h
+      · rename_i hk
+        have hk' : k = "subscription" := by simpa using hk
+        subst hk'
+        simp [h, ho]
+      · simp at h
 
 private theorem composite_of_object (s : SchemaD) (r : String) (h : Validate.isObject s r = true) : Validate.isComposite s r = true := by
   unfold Validate.isObject at h
@@ -428,18 +457,17 @@ private theorem fragsAcyclic_of_rule (s : SchemaD) (env : Exec.ArgEnv) (d : Vali
     obtain ⟨hr, hf⟩ := hreach f f h
     exact g6 f hf hr
 
-/-- **rules_accept_validDoc** — the bridge. If the MODEL of the validator (Validate/*.lean, proved equivalent to the
-    specification rule by rule in Props/C06*.lean) reports nothing for FieldsOnCorrectType, ScalarLeafs,
-    KnownFragmentNames, FragmentsOnCompositeTypes and UniqueFragmentNames, then — with the `RuntimeTie` clauses — the
-    executor-side translation of the document is `ValidDoc`; hence `validated_no_internal_error`, `validDoc_responds`
-    and `exec_refines_spec` apply to it. -/
-theorem rules_accept_validDoc (s : SchemaD) (hs : SchemaWf s) (fx : Validate.Fixes) (hv11 : fx.v11 = true) (env : Exec.ArgEnv)
+/-- the bridge, core form: `ValidDocR` (no "the operation has a root type" clause) from the silent rules; `hroot` says
+    that a root type the EXECUTOR finds for an operation of the document is the one the VALIDATOR's type walk starts from -/
+private theorem rules_accept_validDocR_core (s : SchemaD) (hs : SchemaWf s) (fx : Validate.Fixes) (hv11 : fx.v11 = true) (env : Exec.ArgEnv)
     (d : Validate.Doc) (vars : Exec.Vars)
     (h1 : C06.Silent s fx .fieldsOnCorrectType d) (h2 : C06.Silent s fx .scalarLeafs d)
     (h3 : C06.Silent s fx .knownFragmentNames d) (h4 : C06.Silent s fx .fragmentsOnCompositeTypes d)
     (h5 : C06.Silent s fx .uniqueFragmentNames d) (h6 : C06.Silent s fx .noFragmentCycles d)
-    (hne : ∀ f ∈ fragNames d, f ≠ "") (rt : RuntimeTie s d vars) :
-    Spec.ValidDoc s (eDoc s env d) vars := by
+    (hne : ∀ f ∈ fragNames d, f ≠ "")
+    (hroot : ∀ x ∈ d.defs, ∀ k n vs ds i ss, x = Validate.Def.op k n vs ds i ss → ∀ r, Exec.rootType s k = some r → Validate.rootType s k = some r)
+    (hni : NoIntrospection s d) :
+    Spec.ValidDocR s (eDoc s env d) vars := by
   have g1 := (C06.rule_fields_on_correct_type_iff s fx d).mp h1
   have g2 := (C06.rule_scalar_leafs_iff s fx d).mp h2
   have g3 := (C06.rule_known_fragment_names_iff s fx d).mp h3
@@ -448,14 +476,14 @@ theorem rules_accept_validDoc (s : SchemaD) (hs : SchemaWf s) (fx : Validate.Fix
   have g6 := (C06.rule_no_fragment_cycles_iff s fx hv11 d g5 hne).mp h6
   have hT : ∀ p ∈ typedNodes s d, TLocal s p := by
     intro p hp name args dirs hsub e
-    exact ⟨g1 p hp name args dirs hsub e, g2 p hp name args dirs hsub e, rt.noIntrospection p hp name args dirs hsub e⟩
+    exact ⟨g1 p hp name args dirs hsub e, g2 p hp name args dirs hsub e, hni p hp name args dirs hsub e⟩
   have hN : ∀ n ∈ nodes d, NLocal s d n := fun n hn => ⟨fun on dirs e => g4.1 n hn on dirs e, fun name dirs e => g3 n hn name dirs e⟩
   have hfr := fragment_isSome s env d
-  unfold Spec.ValidDoc Spec.validDocB
+  unfold Spec.ValidDocR Spec.validDocRB
   simp only [Bool.and_eq_true]
   refine ⟨⟨⟨?_, ?_⟩, fragsAcyclic_of_rule s env d g3 g5 g6⟩, ?_⟩
   · -- operations
-    unfold Spec.opsOk
+    unfold Spec.opsOkR
     rw [List.all_eq_true]
     intro o ho
     unfold eDoc at ho
@@ -465,9 +493,12 @@ theorem rules_accept_validDoc (s : SchemaD) (hs : SchemaWf s) (fx : Validate.Fix
     | op kind name vs ds ssid sels =>
       simp only [eOp, Option.some.injEq] at hxo
       subst hxo
-      obtain ⟨r, hr⟩ := rt.roots _ hx kind name vs ds ssid sels rfl
-      obtain ⟨hre, hobj⟩ := rootType_compat s kind r hr
-      simp only [hre]
+      cases hre : Exec.rootType s kind with
+      | none => simp
+      | some r =>
+      have hr := hroot _ hx kind name vs ds ssid sels rfl r hre
+      obtain ⟨_, hobj⟩ := rootType_compat s kind r hr
+      simp only []
       have hcomp := composite_of_object s r hobj
       let v1 := View.enter s (Node.operation kind name vs ds sels) {}
       have hv1t : v1.type = some (Ty.named r) := by simp [v1, View.enter, hr]
@@ -541,6 +572,60 @@ theorem rules_accept_validDoc (s : SchemaD) (hs : SchemaWf s) (fx : Validate.Fix
     exact g5
 
 
+/-- **rules_accept_validDocR** — the bridge from what validation really guarantees. If the MODEL of the validator
+    (Validate/*.lean, proved equivalent to the specification rule by rule in Props/C06*.lean) reports nothing for
+    FieldsOnCorrectType, ScalarLeafs, KnownFragmentNames, FragmentsOnCompositeTypes, UniqueFragmentNames and
+    NoFragmentCycles, then the executor-side translation of the document is `ValidDocR`. The `RuntimeTie` clause
+    "every operation has a root object type" is GONE (the validator does not guarantee it: `mutation { a }` on a schema
+    without a mutation type is accepted); in its place the schema fact `RootsAreObjects` (schema validation). Left of the
+    run-time tie: `NoIntrospection`. -/
+theorem rules_accept_validDocR (s : SchemaD) (hs : SchemaWf s) (hro : RootsAreObjects s) (fx : Validate.Fixes) (hv11 : fx.v11 = true)
+    (env : Exec.ArgEnv) (d : Validate.Doc) (vars : Exec.Vars)
+    (h1 : C06.Silent s fx .fieldsOnCorrectType d) (h2 : C06.Silent s fx .scalarLeafs d)
+    (h3 : C06.Silent s fx .knownFragmentNames d) (h4 : C06.Silent s fx .fragmentsOnCompositeTypes d)
+    (h5 : C06.Silent s fx .uniqueFragmentNames d) (h6 : C06.Silent s fx .noFragmentCycles d)
+    (hne : ∀ f ∈ fragNames d, f ≠ "") (hni : NoIntrospection s d) :
+    Spec.ValidDocR s (eDoc s env d) vars :=
+  rules_accept_validDocR_core s hs fx hv11 env d vars h1 h2 h3 h4 h5 h6 hne
+    (fun _ _ k _ _ _ _ _ _ r hre => rootType_compat_rev s k r hre (hro k r hre)) hni
+
+/-- **rules_accept_validDoc** — the bridge. If the MODEL of the validator (Validate/*.lean, proved equivalent to the
+    specification rule by rule in Props/C06*.lean) reports nothing for FieldsOnCorrectType, ScalarLeafs,
+    KnownFragmentNames, FragmentsOnCompositeTypes and UniqueFragmentNames, then — with the `RuntimeTie` clauses — the
+    executor-side translation of the document is `ValidDoc`; hence `validated_no_internal_error`, `validDoc_responds`
+    and `exec_refines_spec` apply to it. (`rules_accept_validDocR` is the form without the root-type clause.) -/
+theorem rules_accept_validDoc (s : SchemaD) (hs : SchemaWf s) (fx : Validate.Fixes) (hv11 : fx.v11 = true) (env : Exec.ArgEnv)
+    (d : Validate.Doc) (vars : Exec.Vars)
+    (h1 : C06.Silent s fx .fieldsOnCorrectType d) (h2 : C06.Silent s fx .scalarLeafs d)
+    (h3 : C06.Silent s fx .knownFragmentNames d) (h4 : C06.Silent s fx .fragmentsOnCompositeTypes d)
+    (h5 : C06.Silent s fx .uniqueFragmentNames d) (h6 : C06.Silent s fx .noFragmentCycles d)
+    (hne : ∀ f ∈ fragNames d, f ≠ "") (rt : RuntimeTie s d vars) :
+    Spec.ValidDoc s (eDoc s env d) vars := by
+  have hroot : ∀ x ∈ d.defs, ∀ k n vs ds i ss, x = Validate.Def.op k n vs ds i ss → ∀ r, Exec.rootType s k = some r →
+      Validate.rootType s k = some r := by
+    intro x hx k n vs ds i ss e r hre
+    obtain ⟨r', hr'⟩ := rt.roots x hx k n vs ds i ss e
+    have := (rootType_compat s k r' hr').1
+    rw [hre] at this
+    cases this
+    exact hr'
+  refine validDoc_of_validDocR s _ vars
+    (rules_accept_validDocR_core s hs fx hv11 env d vars h1 h2 h3 h4 h5 h6 hne hroot rt.noIntrospection) ?_
+  unfold Spec.opsRooted
+  rw [List.all_eq_true]
+  intro o ho
+  unfold eDoc at ho
+  simp only [List.mem_filterMap] at ho
+  obtain ⟨x, hx, hxo⟩ := ho
+  cases x with
+  | op kind name vs ds ssid sels =>
+    simp only [eOp, Option.some.injEq] at hxo
+    subst hxo
+    obtain ⟨r, hr⟩ := rt.roots _ hx kind name vs ds ssid sels rfl
+    simp [(rootType_compat s kind r hr).1]
+  | frag => simp [eOp] at hxo
+  | ts => simp [eOp] at hxo
+
 /-- **rules_accept_cannot_go_wrong**: the soundness chain from the validator MODEL to the executor model, for documents
     WITH arguments — silent rules (FieldsOnCorrectType, ScalarLeafs, KnownFragmentNames, FragmentsOnCompositeTypes,
     UniqueFragmentNames, NoFragmentCycles; + the two remaining `RuntimeTie` clauses and `MergeSafe`, the declarative form
@@ -568,6 +653,61 @@ theorem rules_accept_responds (s : SchemaD) (hs : SchemaWf s) (fx : Validate.Fix
     (hne : ∀ f ∈ fragNames d, f ≠ "") (rt : RuntimeTie s d vars) (w : Exec.World) (op : Option String) :
     ∃ r, C04.RespondsWith s (eDoc s env d) vars w op r :=
   C04.validDoc_responds s (eDoc s env d) vars w (rules_accept_validDoc s hs fx hv11 env d vars h1 h2 h3 h4 h5 h6 hne rt) op
+
+/-- **rules_accept_cannot_go_wrong_rootless**: the soundness chain WITHOUT "every operation has a root type" (which
+    validation does not guarantee). Hypotheses that remain, and where each comes from:
+      * `SchemaWf`, `SchemaOk`, `RootsAreObjects` — facts of a VALID SCHEMA (schema validation, C13), not of the document;
+      * `fx.v11` — the code of /repo HEAD (fix commit of V11), checked by the harness on the tree under test;
+      * six `Silent` clauses — part of `validate_ast(schema, doc) == []`;
+      * `hne` — the parser never produces an empty name;
+      * `NoIntrospection` — scope of the executor MODEL (`__schema` / `__type` are C15's);
+      * `MergeSafe` — the declarative OverlappingFieldsCanBeMerged on the executor's document (not yet derived from the
+        silent overlap rule; the driver evaluates `mergeSafeB` on every accepted document, `mergeSafeB_sound`);
+      * `WorldTyped` — part of the property statement ("resolver results of the declared types"). -/
+theorem rules_accept_cannot_go_wrong_rootless (s : SchemaD) (hs : SchemaWf s) (hso : SchemaOk s) (hro : RootsAreObjects s)
+    (fx : Validate.Fixes) (hv11 : fx.v11 = true) (env : Exec.ArgEnv) (d : Validate.Doc) (vars : Exec.Vars)
+    (h1 : C06.Silent s fx .fieldsOnCorrectType d) (h2 : C06.Silent s fx .scalarLeafs d)
+    (h3 : C06.Silent s fx .knownFragmentNames d) (h4 : C06.Silent s fx .fragmentsOnCompositeTypes d)
+    (h5 : C06.Silent s fx .uniqueFragmentNames d) (h6 : C06.Silent s fx .noFragmentCycles d)
+    (hne : ∀ f ∈ fragNames d, f ≠ "") (hni : NoIntrospection s d) (hm : MergeSafe s (eDoc s env d))
+    (w : Exec.World) (hw : WorldTyped s w) :
+    ∀ (op : Option String) (fuel cf : Nat) (cls : String), Exec.execute s (eDoc s env d) vars w op fuel cf ≠ .failed (.internal cls) :=
+  validated_no_internal_error_rootless s hso (eDoc s env d) vars
+    (rules_accept_validDocR s hs hro fx hv11 env d vars h1 h2 h3 h4 h5 h6 hne hni) hm w hw
+
+/-- **accepted_cannot_go_wrong**: the same with the premise in the shape of the property statement — the validator's
+    list of errors is EMPTY, i.e. every one of the 26 rule visitors is silent. -/
+theorem accepted_cannot_go_wrong (s : SchemaD) (hs : SchemaWf s) (hso : SchemaOk s) (hro : RootsAreObjects s)
+    (fx : Validate.Fixes) (hv11 : fx.v11 = true) (env : Exec.ArgEnv) (d : Validate.Doc) (vars : Exec.Vars)
+    (hacc : ∀ r ∈ Validate.Rule.all, C06.Silent s fx r d)
+    (hne : ∀ f ∈ fragNames d, f ≠ "") (hni : NoIntrospection s d) (hm : MergeSafe s (eDoc s env d))
+    (w : Exec.World) (hw : WorldTyped s w) :
+    ∀ (op : Option String) (fuel cf : Nat) (cls : String), Exec.execute s (eDoc s env d) vars w op fuel cf ≠ .failed (.internal cls) :=
+  rules_accept_cannot_go_wrong_rootless s hs hso hro fx hv11 env d vars
+    (hacc _ (by decide)) (hacc _ (by decide)) (hacc _ (by decide)) (hacc _ (by decide)) (hacc _ (by decide)) (hacc _ (by decide))
+    hne hni hm w hw
+
+/-- **rules_accept_ranked**: a document on which KnownFragmentNames, UniqueFragmentNames and NoFragmentCycles are silent
+    translates to a RANKED executor document — the only hypothesis of C04's `exec_refines_spec` / `responds` -/
+theorem rules_accept_ranked (s : SchemaD) (fx : Validate.Fixes) (hv11 : fx.v11 = true) (env : Exec.ArgEnv) (d : Validate.Doc)
+    (h3 : C06.Silent s fx .knownFragmentNames d) (h5 : C06.Silent s fx .uniqueFragmentNames d)
+    (h6 : C06.Silent s fx .noFragmentCycles d) (hne : ∀ f ∈ fragNames d, f ≠ "") :
+    C04.Ranked (eDoc s env d) (Spec.docRk (eDoc s env d)) (Spec.docEk (eDoc s env d)) (Spec.docBound (eDoc s env d)) := by
+  have g3 := (C06.rule_known_fragment_names_iff s fx d).mp h3
+  have g5 := (C06.rule_unique_fragment_names_iff s fx d).mp h5
+  have g6 := (C06.rule_no_fragment_cycles_iff s fx hv11 d g5 hne).mp h6
+  exact C04.acyclic_ranked _ (by rw [frags_names s env]; exact g5) (fragsAcyclic_of_rule s env d g3 g5 g6)
+
+/-- **rules_accept_refines_spec** — C04's headline from VALIDATION instead of a rank certificate: on every document the
+    validator model accepts (only the three fragment rules are needed; no schema hypothesis, no `RuntimeTie`, no
+    `MergeSafe`), for every variables, world, fuel and selection set: the executor model refines the specification's
+    algorithm (same ordered data; errors agree one by one on path and kind; locations up to repeats). -/
+theorem rules_accept_refines_spec (s : SchemaD) (fx : Validate.Fixes) (hv11 : fx.v11 = true) (env : Exec.ArgEnv) (d : Validate.Doc)
+    (h3 : C06.Silent s fx .knownFragmentNames d) (h5 : C06.Silent s fx .uniqueFragmentNames d)
+    (h6 : C06.Silent s fx .noFragmentCycles d) (hne : ∀ f ∈ fragNames d, f ≠ "")
+    (vars : Exec.Vars) (w : Exec.World) (cf fuel : Nat) (root : String) (path : Exec.Path) (sels : List Exec.Sel) :
+    C04.ExecRefinesSpecUpToLocations s (eDoc s env d) vars w cf fuel root path sels :=
+  C04.exec_refines_spec s _ vars w _ _ _ (rules_accept_ranked s fx hv11 env d h3 h5 h6 hne) cf fuel root path sels
 
 /-- the table of a translated field node is C07's coercion of ITS argument nodes, one entry per object type defining the
     field (`C04.argsTable_mem`, `C04.argsEntry_some_iff` / `argsEntry_none_iff` read the entries) -/
@@ -606,5 +746,20 @@ example : Spec.ValidDoc brSchema (eDoc brSchema brEnv brDoc) [] := by unfold Spe
 /-- the tables: an argument given through a variable is accepted, the literal `"no"` for `Int` is rejected (field error) -/
 example : (Exec.argsTable brSchema brEnv "a" (eArgs [⟨"n", .var "v"⟩])).map (fun e => (e.1, e.2.isSome)) = [("Query", true)] := by decide
 example : Exec.argsTable brSchema brEnv "a" (eArgs [⟨"n", .str "no"⟩]) = [("Query", none)] := by decide
+
+/-- non-vacuity of the rootless chain: `mutation { a }` on `brSchema` (no mutation type): every rule is silent — the
+    validator accepts — the `roots` clause of `RuntimeTie` FAILS, `RootsAreObjects` and `NoIntrospection` hold -/
+def brMutation : Validate.Doc := { defs := [.op "mutation" none [] [] 1 [.field none "a" [] [] false 0 []]] }
+def brSchemaQ : SchemaD := { brSchema with query := some "Query" }
+example : ∀ r ∈ Validate.Rule.all, C06.Silent brSchemaQ Validate.Fixes.all r brMutation := by
+  unfold C06.Silent; decide +kernel
+example : Validate.rootType brSchemaQ "mutation" = none := by decide
+example : RootsAreObjects brSchemaQ := by
+  intro k r h
+  unfold Exec.rootType at h
+  simp [brSchemaQ, brSchema] at h
+  obtain ⟨_, rfl⟩ := h
+  decide
+example : Spec.ValidDocR brSchemaQ (eDoc brSchemaQ brEnv brMutation) [] := by unfold Spec.ValidDocR; decide
 
 end PyGql.Props.C05
